@@ -33,6 +33,7 @@ AllowedKey(m) ==
     [] m \in {"CreateRefreshTokenSession", "GetRefreshTokenSession", "DeleteRefreshTokenSession", "RotateRefreshToken"} -> {"sig:rt", "sig:at", "other", "empty"}
     [] m \in {"CreateDeviceAuthSession", "GetDeviceCodeSession", "InvalidateDeviceCodeSession"} -> {"sig:dev", "other"}
     [] m \in {"CreatePARSession", "GetPARSession", "DeletePARSession"} -> {"par_uri", "other"}
+    [] m \in {"NewNonce", "IsNonceValid"} -> {"sig:at", "other"}      \* handler/verifiable: a nonce is bound to an access token -- by its signature, if the statement is to hold
     [] OTHER -> {"client_id", "jti", "other", "empty", "sig:at", "sig:rt", "sig:code", "sig:dev", "par_uri"}
 
 Violations(e) ==
